@@ -8,7 +8,7 @@ import json, os, subprocess, sys, tempfile, shutil, glob, concurrent.futures as 
 
 for k in ("GOTOOLCHAIN", "GOFLAGS", "GOPROXY", "GOSUMDB"):
     os.environ.pop(k, None)
-BIN = "/verif/bin/electlint"
+BIN = os.environ.get("BIN", "/verif/bin/electlint")
 
 BASE = "762b7af"  # the /repo commit the sub-agents' patches (seeded/, selftest/benign/) were written against
 
@@ -30,17 +30,21 @@ def scratch(patch, base=None):
     shutil.rmtree(r + "/.git")
     return r, at_base
 
-_base_alarms = None
-def base_alarms():
-    """alarm keys (rule :: construct, without positions) of the unpatched BASE commit"""
-    global _base_alarms
-    if _base_alarms is None:
+BASE2 = "0ca368f"  # the commit the second refactoring campaign (selftest/benign/R*.diff) was written against
+
+def benign_base(name):
+    return BASE2 if name.startswith("R") else BASE
+
+_base_alarms = {}
+def base_alarms(commit=BASE):
+    """alarm keys (rule :: construct, without positions) of the unpatched commit"""
+    if commit not in _base_alarms:
         d = tempfile.mkdtemp(prefix="regress-")
-        subprocess.run("git clone -q --shared /repo %s/r && cd %s/r && git checkout -q %s && rm -rf .git" % (d, d, BASE), shell=True, check=True)
+        subprocess.run("git clone -q --shared /repo %s/r && cd %s/r && git checkout -q %s && rm -rf .git" % (d, d, commit), shell=True, check=True)
         rc, out = run(d + "/r", "all")
-        _base_alarms = set(alarm_key(l) for l in out.splitlines() if is_alarm(l))
+        _base_alarms[commit] = set(alarm_key(l) for l in out.splitlines() if is_alarm(l))
         shutil.rmtree(d)
-    return _base_alarms
+    return _base_alarms[commit]
 
 def is_alarm(l):
     return l.startswith(("VIOLATION ", "UNDECIDED ")) and not l.startswith("VIOLATION property=")
@@ -59,7 +63,7 @@ def run(d, prop):
 
 def benign(patch):
     name = os.path.basename(patch)[:-5]
-    d, at_base = scratch(patch)
+    d, at_base = scratch(patch, benign_base(name))
     if d is None:
         return name, "SKIP (does not apply)", []
     try:
@@ -73,7 +77,7 @@ def benign(patch):
             def rule_of(l):
                 k = alarm_key(l)
                 return k.split(" :: ")[0]
-            base_n = Counter(k.split(" :: ")[0] for k in base_alarms())
+            base_n = Counter(k.split(" :: ")[0] for k in base_alarms(benign_base(name)))
             seen = Counter()
             extra = []
             for l in alarms:
@@ -85,7 +89,7 @@ def benign(patch):
             # F3 splits the (NaN-blind, since repaired) clamp of BASE over two conversions
             if name == "F3":
                 alarms = [l for l in alarms if "C17-R4" not in l]
-        tag = " (on %s)" % BASE if at_base else ""
+        tag = " (on %s)" % benign_base(name) if at_base else ""
         return name, ("ok" + tag) if not alarms else "ALARMS %d%s" % (len(alarms), tag), alarms
     finally:
         cleanup(d)
